@@ -189,6 +189,11 @@ func (s *Sim) timerRequest(t *Task) string {
 			tm.active = true
 			s.ltimers = append(s.ltimers, tm)
 		}
+		if tm.due <= s.now {
+			// due at once (time.After(0), a negative duration): the timer does not wait for the tasks to come to
+			// rest - it fires as an event that competes with the runnable tasks for the next steps
+			s.After(0, fmt.Sprintf("timer#%d due at once", tm.seq), s.fireLibTimers)
+		}
 		return fmt.Sprintf("timer#%d at %v", tm.seq, tm.due)
 	default:
 		s.dropLibTimer(tm)
